@@ -7,12 +7,15 @@ Protocol per check (DESIGN.md section 6): regenerate gen/*.v from /repo; full `m
 development; compile props/<id>.v and read its Print Assumptions; grep for forbidden vernacular;
 build /repo with hooks; run the correspondence for the property; on any difference search for a
 failing input; write evidence/<id>.json; print VIOLATION lines; exit 0/1."""
-import json, os, random, sys, time, traceback
+import json, os, random, re, sys, time, traceback
 
 sys.path.insert(0, os.path.dirname(os.path.abspath(__file__)))
 from common import *
 import checks
 import checks2
+
+
+RUNTIME_PROPS = ("C01", "C03", "C04", "C05", "C06", "C07", "C08", "C09", "C10", "C14", "C15")
 
 
 def proof_side(prop, ctx):
@@ -27,8 +30,21 @@ def proof_side(prop, ctx):
     pre = [("translator", "TRANSLATE-ERROR: " + status[prop])] if prop in status else []
     rc, out = coq_make()
     if rc != 0:
-        err = out[-3000:]
-        return 0, 0, [("coq-build", err)], []
+        failed = set(re.findall(r"\*\*\* \[[^\]]*?:\s*(\S+)\.vo\] Error", out)) or set(re.findall(r'File "\./(\S+)\.v"', out))
+        if failed and failed <= {"theories/GenUtilProofs"}:
+            # only the regenerated run-time-library theorems fail: build everything else; the properties about
+            # run-time behaviour import GenUtilProofs in their props file and are reported there
+            rc2, out2 = coq_make(keep_going=True)
+            still = set(re.findall(r"\*\*\* \[[^\]]*?:\s*(\S+)\.vo\] Error", out2))
+            if still - {"theories/GenUtilProofs"}:
+                return 0, 0, [("coq-build", out2[-3000:])], []
+            vo = os.path.join(COQ, "theories", "GenUtilProofs.vo")
+            if os.path.exists(vo):
+                os.remove(vo)          # never leave a stale proof object for the props to import
+            pre.append(("lexgen_util-translation", out[-2500:])) if prop in RUNTIME_PROPS else None
+        else:
+            err = out[-3000:]
+            return 0, 0, [("coq-build", err)], []
     bad = grep_forbidden()
     probs = list(pre)
     if bad:
